@@ -60,9 +60,33 @@ fn osu_attrs(a: &[u32]) -> OsuDifficultyAttributes {
     }
 }
 
+/// The Classic mod in one of its three equivalent spellings (picked from the case's numbers, so the
+/// same case always gets the same one): intermode CL, lazer ClassicOsu with the setting left at its
+/// default, lazer ClassicOsu with `no_slider_head_accuracy: Some(true)`.
+fn osu_mods_of(c: &GsCase) -> rosu_pp::model::mods::GameMods {
+    use rosu_mods::{generated_mods::ClassicOsu, GameMod, GameMods as Lazer};
+    if !c.cl {
+        return mods_of(c).into();
+    }
+    let pick = c.attrs.iter().sum::<u32>() as usize + c.opts.iter().flatten().count();
+    match pick % 3 {
+        0 => mods_of(c).into(),
+        1 => {
+            let mut m = Lazer::new();
+            m.insert(GameMod::ClassicOsu(ClassicOsu::default()));
+            m.into()
+        }
+        _ => {
+            let mut m = Lazer::new();
+            m.insert(GameMod::ClassicOsu(ClassicOsu { no_slider_head_accuracy: Some(true), ..Default::default() }));
+            m.into()
+        }
+    }
+}
+
 fn osu_perf(c: &GsCase) -> OsuPerformance<'static> {
     let mut p = OsuPerformance::new(osu_attrs(&c.attrs))
-        .mods(mods_of(c))
+        .mods(osu_mods_of(c))
         .hitresult_priority(prio(c.prio));
     if let Some(l) = c.lazer {
         p = p.lazer(l);
